@@ -1,48 +1,62 @@
 (* C07 - Stored state survives restart, including crash-shaped on-disk states (PARTIAL: see docs/C07.md).
    Property theorems only; each is closed by a lemma of proofs/PersistP.v.   Model: model/Persist.v.
-   [fixes] switches the proposed repairs on; the code is [code_fix] = all off. *)
+   The code is the variant [code_fix] of the model (sync at shutdown, tag index written aside and renamed, pipe
+   definitions saved atomically when they change); the [_refuted] theorems are about the variants without one of these. *)
 From LR Require Import lib.Base model.Persist proofs.PersistP.
 From Coq Require Import Sorting.Sorted.
 Open Scope Z_scope.
 
 (* ================= graceful stop and restart ================= *)
 (* the property: whatever the server acknowledged (partitions, events - flushed or not -, pipes) is there after
-   Shutdown + exit + start.  False of the code: an acknowledged event still in a chunk writer's buffer is dropped *)
-Theorem C07_clean_refuted : ~ clean_statement code_fix.
+   Shutdown + exit + start, for every state a running server and its directory can be in *)
+Theorem C07_clean : clean_statement code_fix.
+Proof. exact (clean_with_sync true true). Qed.
+Print Assumptions C07_clean.
+
+(* ... and these states include every state reached by a history of writes / flushes / pipe operations after a start *)
+Theorem C07_clean_history : forall m d, reachable code_fix m d ->
+  exists m' d', start code_fix (graceful code_fix m d) = Some (m', d') /\
+                m_parts m' = m_parts m /\ m_pipes m' = m_pipes m /\
+                (forall p, events_of p (d_jrnl d') = acked m d p).
+Proof. intros m d R. destruct (reachable_consistent _ _ _ R) as [C N]. exact (C07_clean m d C N). Qed.
+Print Assumptions C07_clean_history.
+
+(* false without the sync in partition.Service.Shutdown (whatever the other two switches): an acknowledged event still
+   in a chunk writer's buffer is dropped *)
+Theorem C07_clean_nosync_refuted : forall fa fp, ~ clean_statement (mkFix false fa fp).
 Proof.
-  intros H.
+  intros fa fp H.
   specialize (H (mkMem [O] [(O, [5])] [] [] [(O, O)]) (mkDisk (Some (Whole [O])) None None None [] 1%nat)).
   destruct H as (m' & d' & S & _ & _ & E).
-  - split; [reflexivity|]. split; [intros p []|]. intros p Hp. cbn in Hp. destruct p; [left; reflexivity|congruence].
+  - split; [reflexivity|]. split; [intros p []|]. split.
+    + intros p Hp. cbn in Hp. destruct p; [left; reflexivity|congruence].
+    + split; [repeat constructor; intros []|]. intros p [<-|[]]. cbn. discriminate.
   - constructor.
-  - vm_compute in S. injection S as <- <-. specialize (E O). vm_compute in E. discriminate E.
+  - destruct fa; vm_compute in S; injection S as <- <-; specialize (E O); vm_compute in E; discriminate E.
 Qed.
-Print Assumptions C07_clean_refuted.
+Print Assumptions C07_clean_nosync_refuted.
 
-(* true when every chunk writer has flushed (the stop comes at least WriteFlushMs after the last acknowledgement):
-   partitions, pipes and every acknowledged event are back, for every state and whichever repairs are on *)
-Theorem C07_clean_partial : forall fx m d, consistent m d -> keys_nodup d -> m_buf m = [] ->
+(* what holds in every variant: when every chunk writer has flushed (the stop comes at least WriteFlushMs after the
+   last acknowledgement) everything is back *)
+Theorem C07_clean_quiescent : forall fx m d, consistent m d -> keys_nodup d -> m_buf m = [] ->
   exists m' d', start fx (graceful fx m d) = Some (m', d') /\
                 m_parts m' = m_parts m /\ m_pipes m' = m_pipes m /\
                 (forall p, events_of p (d_jrnl d') = acked m d p).
 Proof. exact clean_quiescent. Qed.
-Print Assumptions C07_clean_partial.
-
-(* and in full with the repair "partition.Service.Shutdown syncs every journal" *)
-Theorem C07_clean_fixed : forall fa fp m d, consistent m d -> keys_nodup d -> bufs_ok m ->
-  exists m' d', start (mkFix true fa fp) (graceful (mkFix true fa fp) m d) = Some (m', d') /\
-                m_parts m' = m_parts m /\ m_pipes m' = m_pipes m /\
-                (forall p, events_of p (d_jrnl d') = acked m d p).
-Proof. exact clean_with_sync. Qed.
-Print Assumptions C07_clean_fixed.
+Print Assumptions C07_clean_quiescent.
 
 (* ================= crash inside the tag-index save ================= *)
-(* the property: at every crash point of saveStateUnsafe (before/after the rename, every torn length of the write)
-   Init succeeds and the index is the old or the new one.  False of the code: after the rename tindex.dat is
+(* the property: at every crash point of saveStateUnsafe (before / inside / after the write of tindex.dat.tmp, after the
+   rename) Init succeeds and the index is the old or the new one *)
+Theorem C07_crash_tindex : tindex_crash_statement code_fix.
+Proof. exact (tindex_crash_atomic true true). Qed.
+Print Assumptions C07_crash_tindex.
+
+(* false for a saver that renames tindex.dat to tindex.bak and writes tindex.dat in place: after the rename tindex.dat is
    missing, the index loads empty, a journal with data has no record, Init fails (tindex.bak is never read) *)
-Theorem C07_crash_tindex_refuted : ~ tindex_crash_statement code_fix.
+Theorem C07_crash_tindex_inplace_refuted : forall fs fp, ~ tindex_crash_statement (mkFix fs false fp).
 Proof.
-  intros H.
+  intros fs fp H.
   specialize (H (mkDisk (Some (Whole [O])) None None None [(O, (O, [5]))] 1%nat) [O] [O; 1%nat]
                 (mkDisk None (Some (Whole [O])) None None [(O, (O, [5]))] 1%nat) eq_refl).
   destruct H as [H|H].
@@ -51,49 +65,66 @@ Proof.
   - vm_compute in H. discriminate H.
   - vm_compute in H. discriminate H.
 Qed.
-Print Assumptions C07_crash_tindex_refuted.
+Print Assumptions C07_crash_tindex_inplace_refuted.
 
-(* a torn tindex.dat (any length, the empty file included) or a torn pipes.dat: the server does not start *)
+(* the loaders: a torn tindex.dat (any length, the empty file included) or a torn pipes.dat makes the server refuse to
+   start - which is why the savers must never leave one *)
 Theorem C07_torn_refuses_start : forall fx d k,
   d_tdat d = Some (Torn k) \/ d_pdat d = Some (Torn k) -> start fx d = None.
 Proof. intros fx d k [H|H]; [exact (tindex_torn_refuses fx d k H)|exact (pipes_torn_refuses fx d k H)]. Qed.
 Print Assumptions C07_torn_refuses_start.
 
-(* what the code does guarantee: a save that completes loads back, and a crash between two saves
-   (SIGKILL at any other moment) leaves a directory that starts with every partition and every flushed event *)
-Theorem C07_crash_tindex_partial : forall fx d m, (forall p, In p (with_data d) -> In p m) ->
+(* a save that completes loads back (every variant) *)
+Theorem C07_tindex_save_loads_back : forall fx d m, (forall p, In p (with_data d) -> In p m) ->
   tindex_init (tsave fx d m) = Some m.
 Proof.
   intros fx d m J. apply tindex_init_whole; [apply tsave_tdat|].
   intros p Hp. apply J. unfold with_data in *. rewrite tsave_jrnl in Hp. exact Hp.
 Qed.
-Print Assumptions C07_crash_tindex_partial.
+Print Assumptions C07_tindex_save_loads_back.
 
+(* SIGKILL at any moment outside a saver: the server starts, every partition and every flushed event is there, the
+   pipes are what pipes.dat holds (every variant; for the code pipes.dat holds the acknowledged definitions: C07_crash_pipes) *)
 Theorem C07_kill_between_saves : forall fx m d pipes, consistent m d -> keys_nodup d -> pipes_init d = Some pipes ->
   exists m' d', start fx (killed m d) = Some (m', d') /\ m_parts m' = m_parts m /\ m_pipes m' = pipes /\
                 (forall p, events_of p (d_jrnl d') = events_of p (d_jrnl d)).
 Proof. exact kill_then_start. Qed.
 Print Assumptions C07_kill_between_saves.
 
-(* with the repair "write tindex.tmp, rename it over tindex.dat" the statement holds at every crash point *)
-Theorem C07_crash_tindex_fixed : forall fs fp, tindex_crash_statement (mkFix fs true fp).
-Proof. exact tindex_crash_atomic. Qed.
-Print Assumptions C07_crash_tindex_fixed.
+(* the crash-shaped states of the savers as the correspondence check applies them to a stopped directory (a start that
+   dies inside the tag-index save, a shutdown that dies inside the pipes save): the directory is as it was *)
+Theorem C07_saver_crash_harmless : forall prev d g, saver_crash g -> apply_surgery code_fix prev d g = d.
+Proof. exact (saver_crash_harmless true). Qed.
+Print Assumptions C07_saver_crash_harmless.
 
 (* ================= pipe definitions ================= *)
-(* the property: after a crash the acknowledged pipe definitions are there.  False of the code: pipes.dat is written
-   by Shutdown only *)
-Theorem C07_crash_pipes_refuted : ~ pipes_crash_statement code_fix.
+(* the property: after any history and a crash, pipes.dat holds the acknowledged pipe definitions *)
+Theorem C07_crash_pipes : pipes_crash_statement code_fix.
+Proof. exact (pipes_crash_fixed true true). Qed.
+Print Assumptions C07_crash_pipes.
+
+(* false when pipes.dat is written by Shutdown only: one CREATE PIPE, SIGKILL *)
+Theorem C07_crash_pipes_shutdown_only_refuted : forall fs fa, ~ pipes_crash_statement (mkFix fs fa false).
 Proof.
-  intros H. specialize (H empty_mem (mkDisk None None None (Some (Whole [])) [] O) [SPipe O] eq_refl).
+  intros fs fa H. specialize (H empty_mem (mkDisk None None None (Some (Whole [])) [] O) [SPipe O] eq_refl).
   vm_compute in H. discriminate H.
 Qed.
-Print Assumptions C07_crash_pipes_refuted.
+Print Assumptions C07_crash_pipes_shutdown_only_refuted.
 
-(* true with the repair "save pipes.dat (atomically) on every create / delete" *)
-Theorem C07_crash_pipes_fixed : forall fs fa, pipes_crash_statement (mkFix fs fa true).
-Proof. exact pipes_crash_fixed. Qed.
-Print Assumptions C07_crash_pipes_fixed.
+(* a crash inside the pipes save itself (before / inside the write of pipes.dat.tmp, after the rename): the definitions
+   load, and are the old or the new ones *)
+Theorem C07_crash_pipes_save : pipes_save_crash_statement code_fix.
+Proof. exact (pipes_save_crash_atomic true true). Qed.
+Print Assumptions C07_crash_pipes_save.
+
+(* false for a saver that writes pipes.dat in place: the empty file *)
+Theorem C07_crash_pipes_save_inplace_refuted : forall fs fa, ~ pipes_save_crash_statement (mkFix fs fa false).
+Proof.
+  intros fs fa H.
+  destruct (H (mkDisk None None None (Some (Whole [O])) [] O) [O] [O; 1%nat] _ eq_refl
+              (pcrash_torn (mkFix fs fa false) _ _ O eq_refl)) as [C|C]; vm_compute in C; discriminate C.
+Qed.
+Print Assumptions C07_crash_pipes_save_inplace_refuted.
 
 (* ================= the time-index snapshot ================= *)
 (* the property: after a start on any crash-shaped directory no flushed event is hidden from a time-range query.
@@ -119,40 +150,43 @@ Print Assumptions C07_crash_cindex_partial.
 (* ================= non-vacuity and reachability of the witnesses ================= *)
 (* the states used above are what real histories produce (the harness replays these histories on the server) *)
 Example C07_witnesses_reachable :
-  (* write 10,20,30; flush; write 40; graceful stop; start: 40 is gone *)
+  (* write 10,20,30; flush; write 40; graceful stop; start: everything is back; without the sync 40 is gone *)
   run_sessions code_fix 1 15 25 empty_disk [mkSession [SWrite 0 [10; 20; 30]; SSync; SWrite 0 [40]] true []]
+    = [OStarted [None] [] [[]]; OStarted [Some [10; 20; 30; 40]] [] [[20]]] /\
+  run_sessions (mkFix false true true) 1 15 25 empty_disk [mkSession [SWrite 0 [10; 20; 30]; SSync; SWrite 0 [40]] true []]
     = [OStarted [None] [] [[]]; OStarted [Some [10; 20; 30]] [] [[20]]] /\
-  (* crash between rename and write *)
-  run_sessions code_fix 1 15 25 empty_disk [mkSession [SWrite 0 [10; 20; 30]; SSync] true [GTRenamed]]
+  (* a crash inside the tag-index save: harmless; with the in-place saver (rename window, torn write) the server refuses to start *)
+  run_sessions code_fix 1 15 25 empty_disk [mkSession [SWrite 0 [10; 20; 30]; SSync] true [GTRenamed; GTTorn 0]]
+    = [OStarted [None] [] [[]]; OStarted [Some [10; 20; 30]] [] [[20]]] /\
+  run_sessions (mkFix true false true) 1 15 25 empty_disk [mkSession [SWrite 0 [10; 20; 30]; SSync] true [GTRenamed]]
     = [OStarted [None] [] [[]]; ORefused] /\
-  (* pipe created, SIGKILL *)
+  run_sessions (mkFix true false true) 1 15 25 empty_disk [mkSession [SWrite 0 [10; 20; 30]; SSync] true [GTTorn 0]]
+    = [OStarted [None] [] [[]]; ORefused] /\
+  (* pipe created, SIGKILL: it is there; saved at shutdown only: gone *)
   run_sessions code_fix 1 15 25 empty_disk [mkSession [SPipe 0] false []]
+    = [OStarted [None] [] [[]]; OStarted [None] [0%nat] [[]]] /\
+  run_sessions (mkFix true true false) 1 15 25 empty_disk [mkSession [SPipe 0] false []]
     = [OStarted [None] [] [[]]; OStarted [None] [] [[]]] /\
-  (* 10,20 | clean stop | 30,40 flushed | SIGKILL: hidden from RANGE [25:45] *)
-  run_sessions code_fix 1 25 45 empty_disk [mkSession [SWrite 0 [10; 20]; SSync] true []; mkSession [SWrite 0 [30; 40]; SSync] false []]
-    = [OStarted [None] [] [[]]; OStarted [Some [10; 20]] [] [[]]; OStarted [Some [10; 20; 30; 40]] [] [[]]] /\
-  (* with all three repairs the first and the third history keep everything *)
-  run_sessions (mkFix true true true) 1 15 25 empty_disk [mkSession [SWrite 0 [10; 20; 30]; SSync; SWrite 0 [40]; SPipe 0] false []]
+  (* a shutdown that dies inside the pipes save (acknowledged 40 still buffered: a crash may lose it) *)
+  run_sessions code_fix 1 15 25 empty_disk [mkSession [SWrite 0 [10; 20; 30]; SSync; SWrite 0 [40]; SPipe 0] false [GPTorn 1]]
     = [OStarted [None] [] [[]]; OStarted [Some [10; 20; 30]] [0%nat] [[20]]] /\
-  run_sessions (mkFix true true true) 1 15 25 empty_disk [mkSession [SWrite 0 [10; 20; 30]; SSync; SWrite 0 [40]] true []]
-    = [OStarted [None] [] [[]]; OStarted [Some [10; 20; 30; 40]] [] [[20]]].
+  (* 10,20 | clean stop | 30,40 flushed | SIGKILL: hidden from RANGE [25:45] (the recorded finding) *)
+  run_sessions code_fix 1 25 45 empty_disk [mkSession [SWrite 0 [10; 20]; SSync] true []; mkSession [SWrite 0 [30; 40]; SSync] false []]
+    = [OStarted [None] [] [[]]; OStarted [Some [10; 20]] [] [[]]; OStarted [Some [10; 20; 30; 40]] [] [[]]].
 Proof. vm_compute. repeat split. Qed.
 
-(* a consistent running state with a buffered event, as the hypotheses of the clean theorems require *)
+(* a reachable (hence consistent) running state with a buffered event, as the hypotheses of the clean theorems require *)
 Example C07_consistent_nonvacuous :
-  let md := run_steps code_fix (empty_mem, empty_disk) [SWrite 0 [10; 20]; SSync; SWrite 1 [11]; SPipe 0] in
-  consistent (fst md) (snd md) /\ keys_nodup (snd md) /\ bufs_ok (fst md) /\ m_buf (fst md) <> [] /\
+  exists m0 d0, start code_fix empty_disk = Some (m0, d0) /\
+  let md := run_steps code_fix (m0, d0) [SWrite 0 [10; 20]; SSync; SWrite 1 [11]; SPipe 0] in
+  reachable code_fix (fst md) (snd md) /\ consistent (fst md) (snd md) /\ keys_nodup (snd md) /\ m_buf (fst md) <> [] /\
   acked (fst md) (snd md) 0 = [10; 20] /\ acked (fst md) (snd md) 1 = [11].
 Proof.
-  cbn zeta. split; [|split; [|split; [|split; [|split]]]].
-  - split; [vm_compute; reflexivity|]. split.
-    + intros p Hp. vm_compute in Hp. destruct Hp as [<-|[]]. vm_compute. left. reflexivity.
-    + intros p Hp. destruct p as [|[|p]]; [vm_compute; left; reflexivity|vm_compute; right; left; reflexivity|].
-      exfalso. apply Hp. reflexivity.
-  - vm_compute. repeat constructor; intuition discriminate.
-  - split; [vm_compute; repeat constructor; intuition discriminate|].
-    intros p Hp. vm_compute in Hp. destruct Hp as [<-|[]]. vm_compute. discriminate.
-  - vm_compute. discriminate.
-  - vm_compute. reflexivity.
-  - vm_compute. reflexivity.
+  destruct (start code_fix empty_disk) as [[m0 d0]|] eqn:S; [|vm_compute in S; discriminate S].
+  exists m0, d0. split; [reflexivity|].
+  pose proof (reach code_fix empty_disk m0 d0 [SWrite 0 [10; 20]; SSync; SWrite 1 [11]; SPipe 0] (NoDup_nil nat) S) as R.
+  destruct (reachable_consistent _ _ _ R) as [C N].
+  vm_compute in S. injection S as <- <-.
+  cbn zeta. split; [exact R|]. split; [exact C|]. split; [exact N|].
+  split; [vm_compute; discriminate|]. split; vm_compute; reflexivity.
 Qed.
